@@ -6,6 +6,8 @@ import (
 
 	"pgregory.net/rapid"
 	. "verifharness/evid"
+	"verifharness/gen"
+	. "verifharness/hist"
 )
 
 // ---------------- C16: no residue
@@ -27,6 +29,37 @@ func genC16(t *rapid.T) Case {
 		}
 	}
 	c.Sched = drawSched(t, n)
+	if rapid.IntRange(0, 3).Draw(t, "cancelFamily") == 0 {
+		// family: transactions over three names, half of them deletions, no logs and no
+		// per-transaction unique ref - so that compactions whose result is EMPTY, stacks that
+		// become empty again, and Close/Clean on them actually occur
+		names := []string{"refs/heads/a", "refs/heads/b", "HEAD"}
+		mk := func() HTx {
+			tx := HTx{}
+			for i := 0; i < rapid.IntRange(1, 2).Draw(t, "cn"); i++ {
+				r := HRef{Name: Str(rapid.SampledFrom(names).Draw(t, "cname")), Kind: gen.KDel}
+				if rapid.Bool().Draw(t, "cval") {
+					r.Kind, r.Val = gen.KVal, PoolHash(t, hs)
+				}
+				tx.Refs = append(tx.Refs, r)
+			}
+			return tx
+		}
+		c.Init = nil
+		for i := 0; i < rapid.IntRange(0, 4).Draw(t, "cinit"); i++ {
+			tx := mk()
+			c.Init = append(c.Init, InitOp{Tx: &tx})
+		}
+		for p := range c.Progs {
+			for i := range c.Progs[p].Ops {
+				op := &c.Progs[p].Ops[i]
+				for j := range op.Txs {
+					op.Txs[j] = mk()
+				}
+			}
+		}
+		return c
+	}
 	if n >= 2 && rapid.IntRange(0, 2).Draw(t, "crashFamily") == 0 {
 		// second family: other processes crash, survivors Close/Clean
 		c.Crashes = []Crash{{Proc: 0, At: rapid.IntRange(0, 50).Draw(t, "crashAt")}}
